@@ -2,10 +2,10 @@ from checks.common import *
 import os, re, json, hashlib, subprocess
 
 SPEC = {
-    "translators": ["gen_prec"],
+    "translators": ["gen_prec", "gen_emit"],
     "bins": ["c02"],
     "model_targets": ["Cond/Check.vo"],
-    "proof_targets": ["Cond/SemProofs.vo", "Cond/RuleSetProofs.vo", "Cond/PrecProofs.vo", "Cond/QuirksProofs.vo", "Cond/MachineProofs.vo"],
+    "proof_targets": ["Cond/SemProofs.vo", "Cond/RuleSetProofs.vo", "Cond/PrecProofs.vo", "Cond/QuirksProofs.vo", "Cond/MachineProofs.vo", "Cond/EmitProofs.vo"],
     "assumptions": [
         "the meaning of conditions is the evaluator coq/Cond/Sem.v, hand-written from conditions.md / undefined_values.md / global_and_private.md; where these are silent it follows the implementation and says [undocumented] (64-bit wrap-around, truncated division, shift counts >= 64 / negative, P% = ceil(n*P/100), empty or undefined ranges make a for..in false, lexicographic string order, anchors of an `of` evaluated per item)",
         "floats, regular expressions (`matches`), modules, arrays/maps, .len(), int-as-bool casts, `bool == integer`, KB/MB suffixes, non-ASCII strings are not generated and not modelled",
